@@ -345,6 +345,14 @@ func (w *walker) account(s *verifmc.Sched, r *Result, prefix []int) bool {
 		if r != nil && r.FreshConfirm {
 			choices, _ := choicesOf(s)
 			v := Violation{Scenario: w.j.Scenario, Param: w.j.Param, Choices: choices, Failure: f, Key: r.Key, Notes: append(r.Notes, "needs-fresh-confirm")}
+			if r.Key != "" && w.known(r.Key) {
+				// a listed known finding: one representative is confirmed, the exploration goes on
+				if !w.seenViol["known|"+r.Key] {
+					w.seenViol["known|"+r.Key] = true
+					st.Violations = append(st.Violations, v)
+				}
+				return false
+			}
 			st.Violations = append(st.Violations, v)
 			w.cut = true
 			return false
